@@ -348,6 +348,10 @@ impl<'tcx> Cx<'tcx> {
                     if let Some(si) = v.try_to_leaf() {
                         let bits = si.to_bits(si.size());
                         let _ = write!(out, ",\"v\":\"{}\"", bits);
+                    } else if let Some(b) = v.try_to_raw_bytes(self.tcx) {
+                        // string / byte-string literals used as patterns are value trees
+                        out.push(',');
+                        self.bytes_json(b, out);
                     }
                 }
                 let _ = t;
